@@ -65,7 +65,8 @@ def _configs(tier, salts):
     for salt in salts:
         if salt != 0 and tier == "quick":
             continue
-        for name, cfg in cfgs.broad_cfgs(salt=salt, probs=("nzr",) if tier == "quick" else ("rosen", "nzr"), budgets=(30,), reg_budgets=(7,)):
+        for name, cfg in cfgs.broad_cfgs(salt=salt, probs=("nzr",) if tier == "quick" else ("rosen", "nzr"), budgets=(30,), reg_budgets=(7,),
+                                         overlays=("soft",) if tier == "quick" else ("soft", "avg")):
             letters = ["nan1", "1e200", "raise"] if tier == "quick" else FAULTS
             if "reg" in cfg["broad_flags"]:
                 letters = ["nan"]
